@@ -246,6 +246,7 @@ func (fr *Frame) exec(in ssa.Instruction, st *State, g string) {
 		fr.panicInstr(x, st, g)
 	case *ssa.Range:
 		fr.vals[x] = SV{t: fr.val(x.X).t, typ: x.X.Type()}
+		fr.rangeInit(x, st) // map range: the ghost visited set starts empty (ext_maprange.go)
 	case *ssa.Return:
 		fr.ret(x, st, g)
 	case *ssa.RunDefers:
@@ -392,6 +393,9 @@ func (fr *Frame) binop(x *ssa.BinOp, st *State, g string) {
 		}
 		exact := fc.define(fr.name(x)+"_exact", "Real", app(op, a.t, b.t))
 		fr.vals[x] = SV{t: fr.f64round(fr.name(x), exact, app("is_int", exact)), typ: x.Type()}
+		return
+	}
+	if !ok && fr.floatMulConst(x, a, b) { // ext_float.go: float64 * positive constant
 		return
 	}
 	if !ok {
@@ -549,6 +553,7 @@ func (fr *Frame) convert(x *ssa.Convert, st *State, g string) {
 		n := app("strlen", v.t)
 		fc.assume("true", eq(app("str_of_bytes", blk, "0", n), v.t))
 		fc.emit(fmt.Sprintf("(assert (forall ((i Int)) (! (=> (and (<= 0 i) (< i %s)) (= (select %s i) (strat %s i))) :pattern ((select %s i)))))", n, blk, v.t, blk))
+		fc.strToBytesFact(blk, n, v.t) // ext_bytesalgebra.go
 		fr.setVal(x, "Slice", mkSlice(pt, "0", n, n))
 	case tok && tb.Info()&types.IsString != 0:
 		if _, isSl := from.(*types.Slice); isSl {
@@ -556,6 +561,7 @@ func (fr *Frame) convert(x *ssa.Convert, st *State, g string) {
 			blk := app("select", fc.comp(st, k, s), sarr(v.t))
 			fr.setVal(x, "Str", app("str_of_bytes", blk, soff(v.t), slen(v.t)))
 			fc.assume("true", eq(app("strlen", fr.vals[x].t), slen(v.t)))
+			fc.bytesToStrFact(blk, soff(v.t), slen(v.t), fr.vals[x].t) // ext_bytesalgebra.go
 			return
 		}
 		fc.unsupported("conversion to string from " + x.X.Type().String())
@@ -563,6 +569,9 @@ func (fr *Frame) convert(x *ssa.Convert, st *State, g string) {
 	default:
 		if tc.sortOf(x.X.Type()) == tc.sortOf(x.Type()) && !(fok && fb.Info()&types.IsFloat != 0) && !(tok && tb.Info()&types.IsFloat != 0) {
 			fr.vals[x] = SV{t: v.t, typ: x.Type()}
+			return
+		}
+		if fr.floatToInt(x, v) { // ext_float.go: float64 -> integer truncates toward zero when in range
 			return
 		}
 		fc.unsupported("conversion " + x.X.Type().String() + " -> " + x.Type().String())
@@ -644,6 +653,7 @@ func (fr *Frame) next(x *ssa.Next, st *State, g string) {
 	fc.assume(g, implies(ok, and(not(eq(rng.t, nilPtr)), has, tc.wf(k, mt.Key(), fc.watermark(st)), tc.wf(val, mt.Elem(), fc.watermark(st)))))
 	// an empty map yields no element
 	fc.assume(g, implies(eq(app("select", fc.comp(st, "ML", "(Array Ptr Int)"), rng.t), "0"), not(ok)))
+	fr.nextVisited(x, st, g, rng.t, k, ok, mt) // ghost visited set of the range statement (ext_maprange.go)
 	fr.vals[x] = SV{typ: x.Type(), tuple: []SV{{t: ok, typ: boolT}, {t: k, typ: mt.Key()}, {t: val, typ: mt.Elem()}}}
 }
 
@@ -1195,6 +1205,11 @@ func (fr *Frame) checkInvariants(li *loopInfo, e inEdge, kind string) {
 		fc.oblige(fr, kind, fmt.Sprintf("L%d:auto", li.ordinal), e.guard, a, li.header.Instrs[0].Pos(), "automatic range bound", fr.props())
 	}
 	env := fr.specEnv(st, fr.entry)
+	env.loopEntry = li.entry // inv-keep: the state in which the loop was entered
+	if kind == "inv-init" {
+		env.loopEntry = st // on an entry edge the loop-entry state is the state of that edge
+	}
+	fr.bindVisited(env, li)
 	for i, cl := range fr.invariantsOf(li) {
 		t, err := env.evalBool(cl.E)
 		if err != nil {
@@ -1222,6 +1237,8 @@ func (fr *Frame) assumeInvariants(li *loopInfo, st *State, g string) {
 		fc.assume(g, a)
 	}
 	env := fr.specEnv(st, fr.entry)
+	env.loopEntry = li.entry
+	fr.bindVisited(env, li)
 	for _, cl := range fr.invariantsOf(li) {
 		t, err := env.evalBool(cl.E)
 		if err != nil {
